@@ -21,17 +21,19 @@ CHECK = {
          "opts_quick": {"loop_bounds": {LOOP: 3}}, "opts_thorough": {"loop_bounds": {LOOP: 5}}, "cover_optional": ("ten-sleeps",)},
         {"fn": P + "vC35_across_e2e", "replay": "model-only", "opts": {"unwind_mode": "assume", "loop_bounds": {LOOP: 1}}, "cover_optional": ("ten-sleeps", "delivered-after-masking")},
         {"fn": P + "vC35_bypass", "replay": "model-only"},
+        {"fn": P + "vC35_sendsync", "replay": "model-only",
+         "opts": {"unwind_mode": "assume", "loop_bounds": {LOOP: 2}, "substitute": dict(SUB, **{"(*" + P + "PID).Ask": P + "vC35_ask", "(*" + P + "PID).DiscoverActor": P + "vC35_discover"})}},
     ],
     "timeout_ms": {"quick": 400000, "thorough": 3000000},
     "opts": {"unwind": 20, "substitute": SUB, "fresh_solver": True},
-    "stop": [k for k in SUB.keys() if k.startswith("(*" + P)],
+    "stop": [k for k in SUB.keys() if k.startswith("(*" + P)] + ["(*" + P + "PID).Ask", "(*" + P + "PID).DiscoverActor"],
     "explanation": "(*PID).deliverAcrossHandoff, (*PID).deliverBypassingHandoff, sleepWithinHandoff, isHandoffRetryable, (*actorSystem).isEndpointRelocating / relocationInFlight / recordRelocationHandoff and the real xsync.TTLMap (Set/Get/ActiveLen) behind relocatingEndpoints are executed symbolically. "
                    "The clock is owned by the harness (time.Now, time.Until, time.NewTimer, time.Sleep, time.After, (*time.Timer).Stop and context.WithDeadline are substituted): every clock reading is a fresh value >= the previous reading + the waiting the code requested since (timer durations, delivery time within its deadline) - anything beyond is arbitrary latency; a timer of duration d either fires (d later, + latency) or the caller's context is cancelled before; "
                    "the delivery callback takes an arbitrary time but honours its own timeout (SendSync's Ask) and the deadline of the context it is given. (*actorSystem).ActorOf is substituted by a resolver whose outcome is arbitrary at every attempt (local target, remote target on the departed endpoint, remote target on a live endpoint, one of 8 retryable errors, one of 2 terminal errors); InCluster is a symbolic boolean; address.FormatHostPort is substituted by an equivalent for the two ports that occur (asserted). "
                    "The departed endpoint was recorded at an arbitrary earlier time (inside or outside its 3 s window, or never). "
                    "The deadline claim is decomposed into obligations decided per retry-loop iteration: every sleep masking a pinned target ends <= start + min(3 s, maxWait); every sleep masking a failed resolution ends <= 500 ms after the first such sleep began and <= start + maxWait; every sleep is in (0, 300 ms]; each arm cuts a sleep below the 50 ms minimum back-off at most once (progress => the loop is bounded); inside a cluster the delivery's context deadline is exactly start + maxWait (none for maxWait <= 0). "
                    "With 'a timer of duration d ends d + latency later' these give by induction: return time <= start + maxWait + latency. vC35_across_e2e additionally asserts the end-to-end inequality (requested waiting <= maxWait; <= 3.5 s of masking for maxWait <= 0; <= 500 ms for a never-resolvable name) for runs with at most one loop iteration. "
-                   "Functional part: at most one delivery, to the last resolved target, result passed through; giving up yields the stalled (retryable) error resp. ErrRelocationInProgress; a terminal error is surfaced as is; outside a cluster exactly one resolution and no sleep. Bypass variant: exactly one resolution, never a timer/sleep, no waiting before the delivery, pinned target => ErrRelocationInProgress.",
+                   "Functional part: at most one delivery, to the last resolved target, result passed through; giving up yields the stalled (retryable) error resp. ErrRelocationInProgress; a terminal error is surfaced as is; outside a cluster exactly one resolution and no sleep. vC35_sendsync: the real (*PID).SendSync call site with (*PID).Ask substituted by the delivery model and DiscoverActor by a failing stub (<= 2 loop iterations): the Ask runs under the deadline-bounded context with the caller's message and timeout. Bypass variant: exactly one resolution, never a timer/sleep, no waiting before the delivery, pinned target => ErrRelocationInProgress.",
     "bounds": {"maxWait": "[-2^62, 2^61] ns (all signs)", "clock": "first reading < 2^40 ns, readings < 2^61 ns, delivery time <= 2^61 ns",
                "retry loop": "runs with <= 3 (quick) / <= 5 (thorough) loop iterations are covered (longer runs are cut by an unwinding ASSUMPTION; boundedness follows from the progress obligation on paper: <= 70 full sleeps + 2 cut sleeps, in practice 15); end-to-end entry: <= 1 iteration",
                "resolution outcomes": "5 kinds, chosen freshly at each attempt"},
